@@ -54,6 +54,7 @@ Section C15b.
   Notation bucket_of := (is_bucket_of NUM parse_float).
   Notation st0 := (@om_st_init NUM).
   Notation reads := (reads_meta guard_fix).
+  Notation implicit_name := (om_implicit_name guard_fix fix_sname NUM).
   Notation meta_of := (meta_for guard_fix).
   Notation field_set := (meta_field NUM).
   Notation ClashS := (Clash NUM).
@@ -128,16 +129,18 @@ Section C15b.
   Qed.
 
   (* a sample line whose name the family in progress does not allow, and which an earlier family (or the one it just
-     closed) owns: `a 1` after family b started, `a 1` inside counter a, `a_total 1` after counter a was closed *)
-  Theorem C15b_family_clash_sample : forall text a mid l b s1 acc1 s2 acc2 n s x q,
+     closed) owns: `a 1` after family b started, `a 1` inside counter a, `a_total 1` after counter a was closed.
+     implicit_name s = the name of the unknown family the sample starts (om_implicit_name): the sample's name in the
+     repaired source (fix_sname), that name unquoted and unescaped once more in the pinned source. *)
+  Theorem C15b_family_clash_sample : forall text a mid l b s1 acc1 s2 acc2 n s x,
     om_lines text = a ++ mid ++ l :: b ->
     prefix st0 a [] = Ok (s1, acc1) -> st_name s1 = Some n -> In x (fam_names n (st_typ s1)) ->
     prefix s1 mid acc1 = Ok (s2, acc2) ->
     is_sample_line l = true -> read_sample (st_typ s2) l = Ok (s, false) ->
-    mem_str (os_name s) (st_allowed s2) = false -> unquote_unescape_with guard_fix (os_name s) = Ok (x, q) ->
+    mem_str (os_name s) (st_allowed s2) = false -> implicit_name s = Ok x ->
     is_err (parse text).
   Proof.
-    intros text a mid l b s1 acc1 s2 acc2 n s x q H E1 N Y E2 L R M U. unfold om_parse. rewrite H.
+    intros text a mid l b s1 acc1 s2 acc2 n s x H E1 N Y E2 L R M U. unfold om_parse. rewrite H.
     eapply family_clash_sample_document; eassumption.
   Qed.
 
@@ -541,7 +544,7 @@ Example C15b_family_clash_sample_nonvacuous :
   /\ is_sample_line (L "a 1") = true
   /\ tread (st_typ (tstate (ex_cs_a ++ ex_cs_mid))) (L "a 1") = Ok (tsample (Some OM_counter) (L "a 1"), false)
   /\ mem_str (os_name (tsample (Some OM_counter) (L "a 1"))) (st_allowed (tstate (ex_cs_a ++ ex_cs_mid))) = false
-  /\ unquote_unescape_with true (os_name (tsample (Some OM_counter) (L "a 1"))) = Ok (L "a", false)
+  /\ om_implicit_name true true Z (tsample (Some OM_counter) (L "a 1")) = Ok (L "a")
   /\ tparse ex_clash_sample = Err ValueError.
 Proof. conjs; fin. Qed.
 
